@@ -24,6 +24,9 @@ func (t *Thread) chan1(send bool, ref any, ch uintptr, capa, ln int) {
 	// blocking channel operations of daemon threads (the applier's and the policy
 	// goroutine's idle loops) are voluntary switch points
 	t.req.yield = t.daemon && daemonYield
+	if shadowOn && inHand != nil && !send {
+		delete(inHand, t.id) // back at a receive: whatever was in hand has been dealt with
+	}
 	t.park()
 }
 
@@ -46,6 +49,7 @@ var (
 func SetShadow(on bool) {
 	shadowOn = on
 	shadow = map[uintptr][]any{}
+	inHand = map[int]any{}
 }
 
 // ShadowOf returns the values currently queued in ch, oldest first (only with SetShadow(true)).
@@ -71,7 +75,7 @@ func Send[T any](ch chan<- T, v T) {
 		return
 	}
 	t.chan1(true, ch, chanPtr(ch), cap(ch), len(ch))
-	if shadowOn && cap(ch) > 0 {
+	if shadowOn && cap(ch) > 0 && t.hand != 2 {
 		shadowPush(chanPtr(ch), v)
 	}
 	ch <- v
@@ -87,7 +91,11 @@ func Recv[T any](ch <-chan T) T {
 	t.chan1(false, ch, chanPtr(ch), cap(ch), len(ch))
 	v := <-ch
 	if shadowOn && cap(ch) > 0 {
-		shadowPop(chanPtr(ch))
+		if t.hand == 2 {
+			inHand[t.id] = v
+		} else {
+			shadowPop(chanPtr(ch))
+		}
 	}
 	t.afterChanOp()
 	return v
@@ -103,7 +111,11 @@ func Recv2[T any](ch <-chan T) (T, bool) {
 	t.chan1(false, ch, chanPtr(ch), cap(ch), len(ch))
 	v, ok := <-ch
 	if shadowOn && cap(ch) > 0 {
-		shadowPop(chanPtr(ch))
+		if t.hand == 2 {
+			inHand[t.id] = v
+		} else {
+			shadowPop(chanPtr(ch))
+		}
 	}
 	t.afterChanOp()
 	return v, ok
@@ -189,7 +201,11 @@ func (c *RCase[T]) info() (bool, any, uintptr, int, int) {
 func (c *RCase[T]) do() {
 	c.v, c.ok = <-c.ch
 	if shadowOn && cap(c.ch) > 0 {
-		shadowPop(chanPtr(c.ch))
+		if t := cur(); t != nil && t.hand == 2 {
+			inHand[t.id] = c.v
+		} else {
+			shadowPop(chanPtr(c.ch))
+		}
 	}
 }
 func (c *RCase[T]) refl() reflect.SelectCase {
@@ -216,7 +232,9 @@ func (c *SCase[T]) info() (bool, any, uintptr, int, int) {
 }
 func (c *SCase[T]) do() {
 	if shadowOn && cap(c.ch) > 0 {
-		shadowPush(chanPtr(c.ch), c.v)
+		if t := cur(); t == nil || t.hand != 2 {
+			shadowPush(chanPtr(c.ch), c.v)
+		}
 	}
 	c.ch <- c.v
 }
@@ -233,6 +251,9 @@ func (t *Thread) selectPoint(hasDefault bool, n int, infos *[MaxCases]caseReq) i
 	t.req.hasDefault = hasDefault
 	t.req.cases = *infos
 	t.req.yield = t.daemon && daemonYield && !hasDefault
+	if shadowOn && inHand != nil && !hasDefault {
+		delete(inHand, t.id)
+	}
 	return t.park()
 }
 
